@@ -316,6 +316,9 @@ pub fn followup_violations(w: &World, check_reclaim: bool) -> Vec<(String, Strin
     let r = exec_p(&maint_cache, w, &Op::Set(ops::key_for_shards("maint", 0, 1, NSHARDS), Val::new(24, Size::One)), true);
     expect_ok(&mut bad, "set with maintenance", &r);
     let s2 = w.snapshot();
+    for (sig, msg) in tree_violations(w, &s2, &s2) {
+        bad.push((format!("after-maintenance-{}", sig), msg));
+    }
     let now = shim::clock_peek_ns() as i128;
     let home_rel = w.home.strip_prefix(&w.sc.root).unwrap().to_string_lossy().into_owned();
     for (rel, mtime) in temp_files(&s1) {
@@ -333,6 +336,10 @@ pub fn followup_violations(w: &World, check_reclaim: bool) -> Vec<(String, Strin
         let r = exec_p(&maint_cache, w, &Op::Set(ops::key_for_shards("maint2", 0, 1, NSHARDS), Val::new(25, Size::One)), true);
         expect_ok(&mut bad, "set with maintenance (2 h later)", &r);
         let s3 = w.snapshot();
+        // reclaiming debris must not damage what is published (debris may share an inode with an entry)
+        for (sig, msg) in tree_violations(w, &s3, &s3) {
+            bad.push((format!("after-reclaim-{}", sig), msg));
+        }
         for (rel, _) in temp_files(&s3) {
             if rel.starts_with(&home_rel) && s2.contains_key(&rel) {
                 bad.push(("debris-not-reclaimed".into(), format!("{} still exists after it became older than the age limit and its directory was maintained", rel)));
